@@ -507,7 +507,11 @@ def run(ctx):
   # ... and the dry primitive equations with a tracer on two levels (cubic products: larger grids)
   rp = ctx.tlc('PrimitivePoly', 'PrimitivePoly_quick.cfg' if q else 'PrimitivePoly_thorough.cfg', tag='pepoly', workers=6, timeout=7200)
   ctx.require_actions(rp, ['Diagnose', 'Vorticity', 'Divergence', 'Temperature', 'Rest'])
-  pe_cases = sorted(rp.cases, key=lambda c: json.dumps([c['b'], c['tref'], c['ch']]))
+  rp3 = ctx.tlc('PrimitivePoly', 'PrimitivePoly_deep.cfg' if q else 'PrimitivePoly_deep_thorough.cfg', tag='pepoly3', workers=4, timeout=7200)
+  ctx.require_actions(rp3, ['Diagnose', 'Vorticity', 'Divergence', 'Temperature', 'Rest'])     # three levels: an interior level
+  if not any(len(c['b']) == 4 for c in rp3.cases):
+    raise common.MachineryError('PrimitivePoly: no three-level case exported')
+  pe_cases = sorted(rp.cases + rp3.cases, key=lambda c: json.dumps([c['b'], c['tref'], c['ch']]))
   if len(pe_cases) < 8:
     raise common.MachineryError('vacuous export of PrimitivePoly')
   pgrids = [dict(M=10), dict(M=10, impl='fast', mult=4), dict(M=11, offset=0.2)]
